@@ -412,3 +412,173 @@ def call_count_findings(case, max_findings=3):
             if op[0] != 'run' and model.ncalls != n0:
                 bad('call-outside-step:' + op[0], 'operation %s evaluated the model %d time(s)' % (op[0], model.ncalls - n0))
     return out
+
+
+# --------------------------------------------------------------------------
+# C09: sweeps on the real code
+# --------------------------------------------------------------------------
+
+class SweepCapture:
+    """Wraps swap_temperatures (state of every level before/after) and ChainData.__setitem__
+    (the swap_index / acceptance rows actually stored, with their row index)."""
+
+    def __init__(self):
+        self.sweeps = []
+
+    def __enter__(self):
+        from epsie.chain.chaindata import ChainData
+        cap = self
+        self._ChainData = ChainData
+        self._orig_swap = ParallelTemperedChain.swap_temperatures
+        self._orig_set = ChainData.__setitem__
+        self._cur = None
+
+        def snap(ch):
+            out = []
+            for l in ch.chains:
+                n = len(l)
+                out.append({'pos': dict(l.current_position), 'stats': dict(l.current_stats),
+                            'blob': None if not l.hasblobs else dict(l.current_blob),
+                            'acc': l._acceptance.asdict(n - 1) if n > 0 else None,
+                            'active': None if not ch.transdimensional else numpy.array(l._active_props).copy(),
+                            'nsteps': [p._nsteps for p in l.proposal_dist.proposals],
+                            'start_step': [getattr(p, 'start_step', None) for p in l.proposal_dist.proposals]})
+            return out
+
+        def swap(self_):
+            ev = {'chain': self_, 'iteration': self_.iteration, 'lastclear': self_.lastclear,
+                  'before': snap(self_), 'stored': {}}
+            cap._cur = ev
+            try:
+                r = cap._orig_swap(self_)
+            finally:
+                cap._cur = None
+            ev['after'] = snap(self_)
+            cap.sweeps.append(ev)
+            return r
+
+        def setitem(self_, index, value):
+            if cap._cur is not None and isinstance(value, dict) and isinstance(index, (int, numpy.integer)):
+                if 'swap_index' in value:
+                    cap._cur['stored']['swap_index'] = (int(index), numpy.array(value['swap_index']).copy())
+                if 'acceptance_ratio' in value:
+                    cap._cur['stored']['ars'] = (int(index), numpy.atleast_1d(numpy.array(value['acceptance_ratio'], dtype=float)).copy())
+            return cap._orig_set(self_, index, value)
+        ParallelTemperedChain.swap_temperatures = swap
+        ChainData.__setitem__ = setitem
+        return self
+
+    def __exit__(self, *a):
+        ParallelTemperedChain.swap_temperatures = self._orig_swap
+        self._ChainData.__setitem__ = self._orig_set
+        return False
+
+
+def _state_equal(params, a, b):
+    ok = _rec_equal(params, a['pos'], b['pos']) and _eq(a['stats']['logl'], b['stats']['logl']) and \
+        _eq(a['stats']['logp'], b['stats']['logp'])
+    if ok and a['blob'] is not None:
+        ok = all(_eq(a['blob'][k], b['blob'][k]) for k in a['blob'])
+    if ok and a['active'] is not None:
+        ok = bool((a['active'] == b['active']).all())
+    return ok
+
+
+def sweep_findings(case, max_findings=4):
+    """C09 oracle (from the property): sweeps exactly at multiples of the swap interval; level t
+    afterwards holds the complete state level swap_index[t] held; swap_index from adjacent
+    exchanges hot to cold (a colder state moves up at most one level); acceptance records not
+    exchanged; one row per sweep since the last clear, in order."""
+    out = []
+    if case.kind != 'pt':
+        return out, 0
+    params = [p[0] for p in case.params]
+    model = plumbing.make_model(case)
+
+    def bad(key, text, extra=None):
+        if len(out) < max_findings and not any(k == key for k, _, _ in out):
+            out.append((key, text, {'case': case.describe(), 'detail': extra}))
+
+    nsweeps = 0
+    with SweepCapture() as cap:
+        sampler = plumbing.build_sampler(case, case.seed, model)
+        sampler.start_position = plumbing.start_positions(case)
+        s = case.swap_interval
+        logs = {ci: [] for ci in range(case.nchains)}     # rows since the last clear, per chain
+        for op in case.ops:
+            if op[0] == 'run':
+                cap.sweeps = []
+                it0 = sampler.chains[0].iteration
+                sampler.run(op[1])
+                it1 = sampler.chains[0].iteration
+                want_its = [i for i in range(it0 + 1, it1 + 1) if i % s == 0] if len(case.betas) > 1 else []
+                for ci, ch in enumerate(sampler.chains):
+                    evs = [e for e in cap.sweeps if e['chain'] is ch]
+                    got_its = [e['iteration'] for e in evs]
+                    if got_its != want_its:
+                        bad('schedule', 'sweeps happened at iterations %s, expected %s (swap interval %d)' % (
+                            got_its[:8], want_its[:8], s), {'chain': ci})
+                    for e in evs:
+                        nsweeps += 1
+                        n = len(e['before'])
+                        idx = e['stored'].get('swap_index', (None, None))[1]
+                        if idx is None:
+                            bad('no-row-stored', 'a sweep stored no swap_index row', {'iteration': e['iteration']})
+                            continue
+                        if sorted(int(x) for x in idx) != list(range(n)):
+                            bad('not-a-permutation', 'swap_index %s is not a permutation' % list(idx), None)
+                            continue
+                        for t in range(n):
+                            if int(idx[t]) < t - 1:
+                                bad('moves-up-more-than-one', 'swap_index %s: the state in slot %d came from slot %d, '
+                                    'more than one level colder' % (list(idx), t, int(idx[t])), None)
+                            if not _state_equal(params, e['after'][t], e['before'][int(idx[t])]):
+                                bad('state-not-permuted-whole', 'after the sweep level %d does not hold the complete state '
+                                    '(position, logl, logp, blob, active set) that level %d held before' % (t, int(idx[t])),
+                                    {'iteration': e['iteration'], 'swap_index': [int(x) for x in idx]})
+                            if e['before'][t]['acc'] is not None and not (
+                                    _eq(e['after'][t]['acc']['acceptance_ratio'], e['before'][t]['acc']['acceptance_ratio'])
+                                    and bool(e['after'][t]['acc']['accepted']) == bool(e['before'][t]['acc']['accepted'])):
+                                bad('acceptance-exchanged', 'a sweep changed a level\'s acceptance record', {'level': t})
+                        ars = e['stored'].get('ars', (None, None))[1]
+                        if ars is None or len(ars) != n - 1 or not all(0.0 <= float(a) <= 1.0 for a in ars):
+                            bad('ars-row', 'acceptance-ratio row %r is not n-1 probabilities' % (ars,), None)
+                        logs[ci].append(([int(x) for x in idx], None if ars is None else [float(a) for a in ars]))
+            elif op[0] == 'clear':
+                sampler.clear()
+                logs = {ci: [] for ci in range(case.nchains)}
+            elif op[0] == 'saveload':
+                try:
+                    st = pickle.loads(pickle.dumps(sampler.state))
+                except ValueError:
+                    continue
+                new = plumbing.build_sampler(case, case.seed + 7919, model)
+                new.set_state(st)
+                sampler = new
+                logs = {ci: [] for ci in range(case.nchains)}
+            # the recorded history against the independent log
+            if len(case.betas) > 1:
+                for ci, ch in enumerate(sampler.chains):
+                    try:
+                        ts, ta = ch.temperature_swaps, ch.temperature_acceptance
+                    except ValueError:
+                        ts = ta = None
+                    nrows = 0 if ts is None else ts.shape[-1]
+                    want = logs[ci]
+                    if nrows != len(want):
+                        lc = ch.lastclear
+                        key = 'rows-view-short-after-offmultiple-clear' if (lc % s != 0 and nrows == len(want) - 1) \
+                            else 'rows-count'
+                        bad(key, 'the swap history shows %d row(s) but %d sweep(s) happened since the last clear '
+                            '(swap interval %d, last clear at iteration %d, now at %d)' % (
+                                nrows, len(want), s, lc, ch.iteration), {'chain': ci})
+                    for r in range(min(nrows, len(want))):
+                        if [int(x) for x in ts[:, r]] != want[r][0]:
+                            bad('rows-content', 'row %d of temperature_swaps is not the swap_index of sweep %d since the clear'
+                                % (r, r), {'chain': ci, 'row': [int(x) for x in ts[:, r]], 'want': want[r][0]})
+                            break
+                        if want[r][1] is not None and not all(_eq(a, b) for a, b in zip(ta[:, r], want[r][1])):
+                            bad('rows-content-ars', 'row %d of temperature_acceptance is not that of sweep %d' % (r, r),
+                                {'chain': ci})
+                            break
+    return out, nsweeps
